@@ -36,6 +36,10 @@ def _post(result, args, kwargs, old):
 
 
 def _install(ctx):
+    if _state.get('installed'):
+        _state['ctx'] = ctx
+        return
+    _state['installed'] = True
     import parso.grammar
     _state['ctx'] = ctx
     contracts.install(parso.grammar.Grammar, 'iter_errors', _post)
